@@ -578,7 +578,7 @@ def run(ctx):
     fails = 0
     for cfg, res in zip(cfgs, results[:-1]):
         heavy = cfg.startswith("rates") or cfg.startswith("regs") or cfg.startswith("solver")
-        sel = ctx.pick(res.cases, ((160 if cfg.startswith("solver") else 420) if heavy else 1400) if ctx.quick else None)
+        sel = ctx.pick(res.cases, ((120 if cfg.startswith("solver") else 420) if heavy else 1400) if ctx.quick else None)
         for k, c in enumerate(sel):
             c["alt"] = heavy and (int(core.stable_hash(c["in"]), 16) % ALT_SHARE == 0)
         outs = ctx.pmap(replay_case, sel, chunksize=4 if heavy else None)
